@@ -164,16 +164,77 @@ func attrOf(i int) uint32 {
 
 func generate() {
 	genMarks()
-	genExhaustiveScores()
+	genExhaustiveScores() // built-in default location
+	// the site's TIME_LOCATION through the real configuration path; the oracle compares the time of every
+	// accepted line with its own clock in the configured location
+	execLine("zone UTC")
 	genRefusals()
 	genTextLengths()
+	execLine("zone America/New_York")
 	genErrorPaths()
 	genBbs()
+	execLine("zone Pacific/Kiritimati") // UTC+14: another date than Taipei for most of the day
 	genRaces()
+	genReindex()
+	execLine("zone Asia/Kathmandu") // UTC+5:45
 	genHolders()
+	execLine("zone Asia/Taipei")
 	genHistories()
 	genMalformed()
 	run.Exhaust = false
+}
+
+func bbsBeginLine(id, holder string, req string, ctype int, text []byte, ip []byte) string {
+	return "begin " + id + " " + holder + strings.TrimPrefix(commentLine("bbs", "sysop", sysopID[:], req, ctype, text, ip), "comment")
+}
+
+// the board index is rewritten (expire / compaction by another tool) between a commenter's lookup and its index
+// update, mostly through the API entry point bbs.CreateComment: ONE request appends at most ONE line, whatever
+// it then reports
+func genReindex() {
+	ip := ipArr("8.8.4.4")
+	scores := []int{0, 10, 99, -5, 7, 100}
+	var recs [][]byte
+	for k, sc := range scores {
+		recs = append(recs, mkRec(artName('M', k), int8(sc), 0, k))
+	}
+	join := func(ks ...int) []byte {
+		var d []byte
+		for _, k := range ks {
+			d = append(d, recs[k]...)
+		}
+		return d
+	}
+	full := join(0, 1, 2, 3, 4, 5)
+	rounds := 1
+	if run.Thorough() {
+		rounds = 4
+	}
+	for r := 0; r < rounds; r++ {
+		execLine(resetLine(attrOf(r), r%2 == 1, true, []byte("body\n--\n"), full))
+		execLine(bbsBeginLine("t0", "foreign", artName('M', 2), 1, []byte("entry moves down"), ip))
+		beginHolder = "foreign"
+		execLine(beginLine("t1", "user", userArr("A1", nil), artName('M', 3), 2, []byte("entry moves down, ptt level"), ip))
+		execLine(bbsBeginLine("t2", "inproc", artName('M', 4), 1, []byte("index restored before the update"), ip))
+		execLine(bbsBeginLine("t3", "foreign", artName('M', 5), 1, []byte("index shorter than the position"), ip))
+		execLine(bbsBeginLine("t4", "foreign", artName('M', 1), 3, []byte("entry stays where it is"), ip))
+		beginHolder = "inproc"
+		execLine("redir " + hx.Hex(join(1, 2, 3, 4, 5))) // the oldest entry expired: every entry moves down
+		execLine("finish t0")
+		execLine("finish t1")
+		execLine(commentLine("bbs", "sysop", sysopID[:], artName('M', 2), 1, []byte("an ordinary comment on the rewritten index"), ip))
+		execLine("redir " + hx.Hex(full)) // back
+		execLine("finish t2")
+		execLine("redir " + hx.Hex(join(0, 1))) // truncated
+		execLine("finish t3")
+		execLine("finish t4")
+		execLine("redir " + hx.Hex(full))
+		execLine(commentLine("bbs", "sysop", sysopID[:], artName('M', 5), 2, []byte("afterwards"), ip))
+		execLine("dump")
+	}
+	execLine("redir zz")
+	execLine("redir")
+	execLine("zone Mars/Olympus")
 }
 
 func genMarks() {
